@@ -166,6 +166,11 @@ def _run_structural(ctx):
              f"real run uses {names.get(False)}: reaches the backend's submit", f"the submit function of a real run ({names.get(False)}) never reaches a scheduler submit", sw.where)
     rule_decision_table(ctx, r3)
     rule_submit_discipline(ctx, r3)
+    # "submitted/running/completed targets are shown as such": the id status looks up next time is the one this run recorded (what close() saves is the in-memory table)
+    from .c07 import rule_tracked_dump
+    from .persist import rule_close_writes
+    rule_tracked_dump(ctx, r3)
+    rule_close_writes(ctx, r3, ("tracked jobs",))
     rule_cone_selection(ctx, r3)
     rule_hash_after_accept(ctx, r3)
 
